@@ -261,6 +261,9 @@ func NuGetRange(r *rand.Rand) string {
 		s := strings.Join(p, ".")
 		if r.Intn(4) == 0 {
 			s += "-" + Pick(r, "alpha", "beta.1", "rc", "0", "RC", "Beta", "rc.Z", "ALPHA.1")
+		} else if r.Intn(12) == 0 {
+			// A floating prerelease as a range bound ("[1.0.0-beta*,2.0.0)").
+			s += "-" + Pick(r, "beta*", "rc.*", "*", "alpha.1*")
 		}
 		return s
 	}
